@@ -142,7 +142,10 @@ def check_case(ctx, case):
             r = o.value
             results.append(r)
             all_results.append(r)
-            if list(r.test_distribution) != sizes or r.observed_statistic != n_obs:
+            nq = ctx.normalize("N", lambda: (list(r.test_distribution), tuple(float(x) for x in r.quantile)))
+            if nq is None:
+                pass
+            elif list(r.test_distribution) != sizes or r.observed_statistic != n_obs:
                 ctx.violation("N:distribution_or_statistic_wrong", {"td": list(r.test_distribution), "want": sizes})
             elif tuple(float(x) for x in r.quantile) != quantiles(sizes, n_obs):
                 ctx.violation("N:quantile_wrong", {"got": list(r.quantile), "want": quantiles(sizes, n_obs)})
@@ -184,6 +187,8 @@ def check_case(ctx, case):
                 continue
             results.append(r)
             want_dist = [stat(c) for c in cj if not (skip_empty and c.sum() == 0)]
+            if ctx.normalize(name, lambda: ([float(x) for x in r.test_distribution], float(r.observed_statistic), tuple(float(x) for x in r.quantile))) is None:
+                continue
             td = [float(x) for x in r.test_distribution]
             if len(td) != len(want_dist) or not all(rel(a, b) for a, b in zip(td, want_dist)):
                 ctx.violation(name + ":test_distribution_wrong", {"got": td[:6], "want": want_dist[:6], "n_got": len(td), "n_want": len(want_dist)})
@@ -221,6 +226,8 @@ def check_case(ctx, case):
                     ctx.violation(name + ":empty_observation_not_flagged_not_valid", {"status": getattr(r, "status", None)})
                 continue
             results.append(r)
+            if ctx.normalize(name, lambda: ([float(x) for x in r.test_distribution], float(r.observed_statistic), tuple(float(x) for x in r.quantile))) is None:
+                continue
             td = [float(x) for x in r.test_distribution]
             got_obs = float(r.observed_statistic)
             if name == "M":
@@ -253,6 +260,8 @@ def check_case(ctx, case):
             o = call(CE.calibration_test, all_results)
             if not o.ok:
                 ctx.unexpected(o, "calibration_test")
+            elif ctx.normalize("calibration", lambda: ([float(x) for x in o.value.test_distribution], [float(r.quantile[1]) for r in valid])) is None:
+                pass
             elif [float(x) for x in o.value.test_distribution] != [float(r.quantile[1]) for r in valid]:
                 ctx.violation("calibration:wrong_quantiles_collected", {"got": [float(x) for x in o.value.test_distribution][:8],
                                                                        "want": [float(r.quantile[1]) for r in valid][:8],
